@@ -31,6 +31,17 @@ func ruleArithKind(c *Ctx) *RuleResult {
 		"Idiv": {arithArm{ctor: "IntValue", op: "floordivInt"}, arithArm{ctor: "FloatValue", op: "floordivFloat"}},
 		"Mod":  {arithArm{ctor: "IntValue", op: "modInt"}, arithArm{ctor: "FloatValue", op: "modFloat"}},
 	}
+	// comparisons: same kinds compare directly, mixed kinds go through the exact helpers
+	// (a float64 conversion of the integer is not exact beyond 2^53)
+	cmpRef := map[string][4]string{ // ii, if, fi, ff
+		"numIsLessThan": {"<", "ltIntAndFloat", "ltFloatAndInt", "<"},
+		"isLessThan":    {"<", "ltIntAndFloat", "ltFloatAndInt", "<"},
+		"le":            {"<=", "leIntAndFloat", "leFloatAndInt", "<="},
+	}
+	for n, c4 := range cmpRef {
+		ref[n] = want{}
+		_ = c4
+	}
 	var names []string
 	for n := range ref {
 		names = append(names, n)
@@ -38,10 +49,12 @@ func ruleArithKind(c *Ctx) *RuleResult {
 	sort.Strings(names)
 	for _, name := range names {
 		f := p.Func("runtime", name)
-		if f == nil || len(f.Params) != 2 {
+		_, isCmp := cmpRef[name]
+		if f == nil || len(f.Params) < 2 {
 			r.broken("anchor unresolved: runtime.%s(x, y Value)", name)
 			continue
 		}
+		xyParams := f.Params[len(f.Params)-2:]
 		// kind of an operand expression and the parameter it comes from
 		kindOf := func(v ssa.Value) (string, int) {
 			kind, prm := "", -1
@@ -78,7 +91,7 @@ func ruleArithKind(c *Ctx) *RuleResult {
 						}
 					}
 				}
-				for i, fp := range f.Params {
+				for i, fp := range xyParams {
 					if recv == ssa.Value(fp) {
 						prm = i
 					}
@@ -90,24 +103,37 @@ func ruleArithKind(c *Ctx) *RuleResult {
 		problem := ""
 		forEachInstr(f, func(ins ssa.Instruction) {
 			ret, ok := ins.(*ssa.Return)
-			if !ok || len(ret.Results) < 2 {
+			if !ok || len(ret.Results) < 1 {
 				return
 			}
-			if k, isK := constInt(ret.Results[1]); !isK || k == 0 {
-				return // not a success return
+			ctor := ""
+			var expr ssa.Value
+			if isCmp {
+				if _, isK := ret.Results[0].(*ssa.Const); isK {
+					return // the 'not numbers' return
+				}
+				expr = ret.Results[0]
+			} else {
+				if len(ret.Results) < 2 {
+					return
+				}
+				if k, isK := constInt(ret.Results[1]); !isK || k == 0 {
+					return // not a success return
+				}
+				if len(ret.Results) == 3 && !isNilConst(ret.Results[2]) {
+					return // error return (division by zero)
+				}
+				mk, ok := ret.Results[0].(*ssa.Call)
+				if !ok || mk.Call.StaticCallee() == nil || len(mk.Call.Args) != 1 {
+					problem = "a success return at " + p.InstrPos(ins) + " does not build its result with IntValue/FloatValue"
+					return
+				}
+				ctor = mk.Call.StaticCallee().Name()
+				expr = mk.Call.Args[0]
 			}
-			if len(ret.Results) == 3 && !isNilConst(ret.Results[2]) {
-				return // error return (division by zero)
-			}
-			mk, ok := ret.Results[0].(*ssa.Call)
-			if !ok || mk.Call.StaticCallee() == nil || len(mk.Call.Args) != 1 {
-				problem = "a success return at " + p.InstrPos(ins) + " does not build its result with IntValue/FloatValue"
-				return
-			}
-			ctor := mk.Call.StaticCallee().Name()
 			var a, b ssa.Value
 			op := ""
-			switch e := stripConv(mk.Call.Args[0]).(type) {
+			switch e := stripConv(expr).(type) {
 			case *ssa.BinOp:
 				a, b, op = e.X, e.Y, e.Op.String()
 			case *ssa.Call:
@@ -116,11 +142,17 @@ func ruleArithKind(c *Ctx) *RuleResult {
 				}
 			}
 			if op == "" {
+				if isCmp {
+					return // a metamethod result, Truth(res)
+				}
 				problem = "the value returned at " + p.InstrPos(ins) + " is neither a binary operation nor a two-argument helper call"
 				return
 			}
 			ka, pa := kindOf(a)
 			kb, pb := kindOf(b)
+			if isCmp && ka == "" && kb == "" {
+				return // the string comparison
+			}
 			if ka == "" || kb == "" || ka == "?" || kb == "?" {
 				problem = "cannot tell the operand kinds of the return at " + p.InstrPos(ins)
 				return
@@ -135,10 +167,13 @@ func ruleArithKind(c *Ctx) *RuleResult {
 			r.broken("runtime.%s: %s (shape not recognised; the reference table cannot be applied)", name, problem)
 			continue
 		}
-		for _, combo := range []string{"ii", "if", "fi", "ff"} {
+		for ci, combo := range []string{"ii", "if", "fi", "ff"} {
 			w := ref[name].other
 			if combo == "ii" {
 				w = ref[name].ii
+			}
+			if isCmp {
+				w = arithArm{ctor: "", op: cmpRef[name][ci]}
 			}
 			got, ok := arms[combo]
 			kinds := strings.NewReplacer("i", "integer ", "f", "float ").Replace(combo)
@@ -150,7 +185,11 @@ func ruleArithKind(c *Ctx) *RuleResult {
 					r.fail("arith-arm-missing:"+name+":"+combo, p.Pos(f.Pos()), fmt.Sprintf("runtime.%s has no success return for operands (%s): that pair of numbers is reported as 'not a number' and goes to the metamethod fallback", name, strings.TrimSpace(kinds)))
 				}
 			case got.ctor != w.ctor || got.op != w.op:
-				r.fail("arith-arm:"+name+":"+combo, got.pos, fmt.Sprintf("runtime.%s, operands (%s): the result is %s(… %s …); the manual's rule for this operation gives %s(… %s …)", name, strings.TrimSpace(kinds), got.ctor, got.op, w.ctor, w.op))
+				extra := ""
+				if isCmp {
+					extra = " (an integer and a float must be compared exactly: float64(n) rounds beyond 2^53)"
+				}
+				r.fail("arith-arm:"+name+":"+combo, got.pos, fmt.Sprintf("runtime.%s, operands (%s): the result is %s(… %s …); the manual's rule for this operation gives %s(… %s …)%s", name, strings.TrimSpace(kinds), got.ctor, got.op, w.ctor, w.op, extra))
 			default:
 				r.ok(fmt.Sprintf("runtime.%s (%s): %s(%s)", name, strings.TrimSpace(kinds), w.ctor, w.op))
 			}
